@@ -18,8 +18,10 @@ EXPLANATION = (
     "the x handed to blockwise with it, and the x_chunks literal of the aggregation step are all derived from a "
     "layout-pinned x (x = x.freeze_chunks() on every path before them); R12.2 the unknown-chunks refusal still dominates "
     "the offset computation; R12.3 Array.__getitem__ still routes integer dask-array indices to that path before generic "
-    "slicing. Everything else about index semantics (normalisation, negative steps, fancy indices, bounds errors, .vindex, "
-    ".blocks) is arithmetic over shapes and chunk boundaries and is not decided."
+    "slicing; R12.5 REF: every condition under which the slicing code raises for an unsupported or out-of-bounds index (37 "
+    "reference fingerprints) and the exits of take - in particular the identity shortcut that returns x unchanged - are structurally "
+    "unchanged. Everything else about index semantics (normalisation, negative steps, fancy indices, .vindex, .blocks) is arithmetic "
+    "over shapes and chunk boundaries and is not decided."
 )
 ASSUMPTIONS = ["freeze_chunks()/ChunksFreeze restore the advertised layout at lowering (C03 R03.2 / C20 R20.3)"]
 TRUSTED = ["CPython ast", "sa.cfg must-pass", "sa.dataflow"]
@@ -111,7 +113,14 @@ def r12_4(ctx):
     return rr
 
 
-RULES = [r12_1, r12_2, r12_3, r12_4]
+def r12_5(ctx):
+    from ..refguards import check_reference
+
+    rr = RuleResult("R12.5", "REF", "the refusals of unsupported / out-of-bounds indices in the slicing code, and the exits of take (identity shortcut, unknown-size refusal), are structurally unchanged", min_instances=30)
+    return check_reference(ctx, rr, PROP)
+
+
+RULES = [r12_1, r12_2, r12_3, r12_4, r12_5]
 
 LEVEL_TEXT = (
     "Static decision of a single necessary condition of C12: the per-chunk offset literals (and the x_chunks literal) "
